@@ -1,6 +1,6 @@
 /-
 pm_c23: model driver for C23.  Ops (one per line):
-  call <STARTING|NORMAL|DEGRADED|RESIZING> <EntryPointName>
+  call <STARTING|NORMAL|DEGRADED|RESIZING> <EntryPointName> [<request shape>]
 Answer: `admitted` (the call got past the state gate) or `refused unchanged` (method-not-allowed
 error and data untouched).  `#spec` carries what the property demands for the entry point's class.
 -/
@@ -11,6 +11,7 @@ open PV.Proto PV.C23
 
 def step (u : Unit) (ws : List String) : Unit × Ans :=
   match ws with
+  | ["call", st, name, _variant] => step u ["call", st, name]   -- the request shape never matters to the gate
   | ["call", st, name] =>
     match CState.ofText? st with
     | none => (u, ans "bad-op")
